@@ -13,6 +13,7 @@ plan operations with a truncated meta.json / database copy / CRC sidecar or any 
 clean-up).
 -/
 import RqModel.Lemmas.Upgrade
+import RqModel.Model.SnapFS
 import RqModel.Gen.PlanShapes
 namespace C08
 open RqModel.Upgrade
@@ -39,9 +40,76 @@ theorem upgrade_crash_safe_v7 {e : D} {l7 : List (S7 D)} {m : Meta} {d : D} (h :
     start e (cuts.foldl (startCut e) { old7 := some l7 }) = .ok (upgraded m d) :=
   start_inv7 h (foldl_startCut_inv7 h cuts (.P none))
 
-/-- a start on an already upgraded store changes nothing -/
-theorem upgrade_idempotent (e : D) (m : Meta) (d : D) : start e (upgraded m d) = .ok (upgraded m d) := by
-  simp [start, u78, u810, u810With, upgraded]
+/-- a start on an already upgraded store — whatever it holds — changes nothing -/
+theorem upgrade_idempotent (e : D) (l : List (S10 D)) :
+    start e ({ new := some l } : US D) = .ok { new := some l } := by
+  simp [start, u78, u810, u810With]
+
+/-! ### "newest"
+`getNewest8Snapshot` / the model's `newest8` choose among COMPLETE entries only (a directory with
+meta.json AND its `<id>.db`); an entry lacking a file is not a snapshot. `C8 l m d` therefore says
+"`m` is the newest complete snapshot". The statement about the newest of ALL entries that carry a
+meta.json needs that one to be complete: -/
+
+/-- `m` is at least as new as every meta.json in the directory, complete entry or not -/
+def NewestOfAll (l : List (S8 D)) (m : Meta) : Prop := ∀ x ∈ l, ∀ m', x.mt = some m' → metaLe m' m = true
+
+/-- the property as written: the upgraded store holds the newest original snapshot -/
+def C08_full (e : D) : Prop :=
+  ∀ (l8 : List (S8 D)) (m : Meta) (cuts : List (StartCut D)),
+    (∃ x ∈ l8, x.mt = some m) → NewestOfAll l8 m →
+    ∃ d, start e (cuts.foldl (startCut e) { old8 := some l8 }) = .ok (upgraded m d)
+
+/-- it holds whenever the newest entry is complete … -/
+theorem upgrade_keeps_newest_of_all_v8 (e : D) {l8 : List (S8 D)} {m : Meta} {d : D} (h : C8 l8 m d)
+    (_hn : NewestOfAll l8 m) (cuts : List (StartCut D)) :
+    start e (cuts.foldl (startCut e) { old8 := some l8 }) = .ok (upgraded m d) :=
+  upgrade_crash_safe_v8 e h cuts
+
+/-- … and not otherwise: when the entry with the newest meta.json has lost its database file, the
+upgrade silently falls back to the newest complete one (no crash involved). -/
+theorem newest_incomplete_fallback_witness :
+    let l8 : List (S8 Nat) := [{ id := 1, dir := true, mt := some ⟨1, 10, 2⟩, db := some 7 },
+                               { id := 2, dir := true, mt := some ⟨2, 20, 2⟩, db := none }]
+    NewestOfAll l8 ⟨2, 20, 2⟩ ∧ start 0 ({ old8 := some l8 } : US Nat) = .ok (upgraded ⟨1, 10, 2⟩ 7) := by
+  refine ⟨?_, by decide⟩
+  intro x hx m' hm
+  simp only [List.mem_cons, List.mem_nil_iff, or_false] at hx
+  rcases hx with rfl | rfl <;> simp at hm <;> subst hm <;> decide
+
+theorem C08_full_fails : ¬ C08_full (0 : Nat) := by
+  intro h
+  obtain ⟨d, hd⟩ := h [{ id := 1, dir := true, mt := some ⟨1, 10, 2⟩, db := some 7 },
+                        { id := 2, dir := true, mt := some ⟨2, 20, 2⟩, db := none }] ⟨2, 20, 2⟩ []
+    ⟨{ id := 2, dir := true, mt := some ⟨2, 20, 2⟩, db := none }, by simp, rfl⟩ newest_incomplete_fallback_witness.1
+  have := newest_incomplete_fallback_witness.2
+  simp only [List.foldl_nil] at hd
+  rw [this] at hd
+  simp [upgraded, fin] at hd
+
+/-! ### "opens successfully": the upgraded directory is a loadable store of the snapshot model -/
+
+/-- the v10 directory as a store of RqModel.SnapFS -/
+def toStore (x : S10 D) : RqModel.SnapFS.FS D :=
+  { names := [x.id]
+    dir := fun n => if n = x.id then
+      some { tmp := false, mt := x.mt.map fun m => ⟨m.id, m.index, m.term⟩, db := x.db, crc := x.crc, wals := [] }
+      else none }
+
+/-- NewStore's catalog scan of the upgraded directory succeeds and shows the one snapshot with the
+original index, term and database; the restart observation (C07's `observe`) is that snapshot. -/
+theorem upgraded_store_opens (A : RqModel.SnapFS.DbAlg D) (m : Meta) (d : D) :
+    ∃ x, RqModel.SnapFS.scan (toStore (fin m d)) = .ok [x] ∧ x.mt = ⟨m.id, m.index, m.term⟩ ∧ x.db = some d ∧
+      RqModel.SnapFS.observe A [x] = some (m.index, m.term, some d) ∧
+      RqModel.SnapFS.check A (toStore (fin m d)) = .ok (toStore (fin m d)) := by
+  refine ⟨{ name := m.id, mt := ⟨m.id, m.index, m.term⟩, db := some d, crc := some d, wals := [] }, ?_, rfl, rfl, ?_, ?_⟩
+  · simp [RqModel.SnapFS.scan, RqModel.SnapFS.liveDirs, toStore, fin, RqModel.SnapFS.loadAll, RqModel.SnapFS.loadSnap]
+  · simp [RqModel.SnapFS.observe, RqModel.SnapFS.resolveNewest, RqModel.SnapFS.resolveRev]
+  · simp only [RqModel.SnapFS.check, toStore, RqModel.SnapFS.rmTmpDirs]
+    congr 1
+    simp only [RqModel.SnapFS.FS.mk.injEq, true_and, and_true]
+    funext n
+    by_cases h : n = (fin m d).id <;> simp [h]
 
 /-- The defect repaired by 5a94866, on the resume branch as it was: after a crash between the
 plan's rename and the removal of the plan file, every later start failed. -/
